@@ -284,6 +284,40 @@ def one(mon: Monitor, rng: random.Random) -> None:
 PINNED_SEEDS = [11, 22, 33]
 
 
+def four_d(mon: Monitor, rng: random.Random, n: int) -> None:
+    """Rasters with an axis on either side of (y, x): (time, y, x, band).  Whole-pixel placements on binary-exact grids, nearest: the chunked result equals the whole-array
+    result in every plane, whatever way the extra axes are chunked."""
+    import dask.array as da
+    from odc.geo.xr import wrap_xr, xr_reproject
+
+    for _ in range(n):
+        src, dst, k0, _l = pairs.same_crs_pair(rng, kind=rng.choice(["shift", "partial", "contained", "mirror", "scale"]), binary_exact=True, max_n=24)
+        H, W = src.shape
+        nt, nb = rng.choice([(2, 2), (2, 3), (3, 2), (1, 2), (2, 1)])
+        dtype = rng.choice(["int16", "float32", "uint8"])
+        nodata = rng.choice([None, -9 if dtype != "uint8" else 255])
+        base = (np.arange(H * W).reshape(H, W) % 97 + 1)
+        data = np.stack([np.stack([(base * (1 + t) + 7 * b) % 120 + 1 for b in range(nb)], axis=-1) for t in range(nt)]).astype(dtype)
+        t_ = [np.datetime64("2020-01-01") + np.timedelta64(k, "D") for k in range(nt)]
+        cy, cx = rng.choice([3, 5, 8, 64]), rng.choice([4, 7, 64])
+        ct, cb = rng.choice([1, nt, nt]), rng.choice([1, nb, nb])
+        dch = (rng.choice([3, 5, 8]), rng.choice([4, 6, 9]))
+        cfg = {"src": gen.gbox_desc(src), "dst": gen.gbox_desc(dst), "kind": "same|" + k0, "dims": "time,y,x,band", "planes": [nt, nb], "dtype": dtype, "nodata": nodata, "src_chunks": [ct, cy, cx, cb], "dst_chunks": list(dch)}
+        xx = wrap_xr(data, src, time=t_, nodata=nodata)
+        xd = wrap_xr(da.from_array(data, chunks=(ct, cy, cx, cb)), src, time=t_, nodata=nodata)
+        a, e = call(lambda: xr_reproject(xx, dst, resampling="nearest").values)
+        if e is not None:
+            mon.fail("whole", {**cfg, "exc": e}, key="whole-raises", cls="4d")
+            continue
+        b, e = call(lambda: xr_reproject(xd, dst, resampling="nearest", chunks=dch).compute(scheduler=rng.choice(["sync", "threads"])).values)
+        if e is not None:
+            mon.fail("chunked", {**cfg, "exc": e}, key="chunked-raises", cls="4d")
+            continue
+        same = a.shape == b.shape == (nt, *dst.shape, nb) and a.dtype == b.dtype and np.array_equal(a, b, equal_nan=True)
+        mon.check(bool(same), "chunked==whole", lambda: {**cfg, "shapes": [a.shape, b.shape], "planes_that_differ": [[t, q] for t in range(nt) for q in range(nb) if a.shape == b.shape and not np.array_equal(a[t, ..., q], b[t, ..., q], equal_nan=True)]},
+                  key="values-differ", cls="4d|both-extra-axes-chunked-together" if (ct > 1 and cb > 1) else "4d", sig=hsig("4d", repr(cfg)))
+
+
 def run(mon: Monitor, tier: str, seed: int, shard: int, nshards: int) -> None:
     _orders.clear()
     rng = random.Random(seed * 1000 + shard + 13)
@@ -295,6 +329,11 @@ def run(mon: Monitor, tier: str, seed: int, shard: int, nshards: int) -> None:
             one(mon, random.Random(rs))
         except Exception as e:
             mon.error("pair", e)
+    mon.case = {"kind": "4d"}
+    try:
+        four_d(mon, random.Random(seed * 1000 + shard + 113), 14 if tier == "quick" else 150)
+    except Exception as e:
+        mon.error("4d", e)
     mon.case = None
     mon.obs["distinct_orders_sync"] = len({o for s, o in _orders if s == "sync"})
     mon.obs["distinct_orders_threads"] = len({o for s, o in _orders if s == "threads"})
@@ -305,4 +344,6 @@ def run(mon: Monitor, tier: str, seed: int, shard: int, nshards: int) -> None:
 
 def replay(mon: Monitor, case) -> None:
     mon.case = case
+    if case.get("kind") == "4d":
+        return four_d(mon, random.Random(mon.seed * 1000 + 113), 14)
     one(mon, random.Random(case["rs"]))
